@@ -34,7 +34,10 @@ var injectKinds = []string{"goto", "labelled-break", "labelled-continue", "selec
 	// a goto in a plain closure that jumps forward over a range loop (negative control only)
 	"goto-over-range",
 	// a defer next to an UNREACHABLE yield in a range that stays native
-	"defer-and-dead-yield-in-func-range"}
+	"defer-and-dead-yield-in-func-range",
+	// an unsupported statement reachable only through the else-if / else arms of an if chain in
+	// which no arm yields
+	"defer-in-else-if-arm", "select-in-else-arm", "defer-in-third-arm"}
 
 // rawInject returns the source text of the construct (placeholders as in templates).
 func rawInject(kind string, tag func() int, control bool) string {
@@ -91,6 +94,12 @@ func rawInject(kind string, tag func() int, control bool) string {
 		return fmt.Sprintf("if len(\"x\") == 2 {\n\tgoto L9\n}\nfor _, x9 := range []int{1, 2} {\n\tvrt.E(%d, x9)\n}\nL9:\n\tvrt.E(%d)\n%s", tag(), tag(), y("62"))
 	case "defer-and-dead-yield-in-func-range":
 		return fmt.Sprintf("for v9 := range func(yield func(int) bool) {\n\t_ = yield(1) && yield(2)\n} {\n\tdefer vrt.E(%d, v9)\n\tcontinue\n\t«Yield»(v9)\n}\n«Yield»(61)\nvrt.E(%d)", tag(), tag())
+	case "defer-in-else-if-arm":
+		return fmt.Sprintf("if len(\"x\") == 2 {\n\tvrt.E(%d)\n} else if len(\"x\") == 1 {\n\tdefer vrt.E(%d)\n}\n«Yield»(60)\nvrt.E(%d)", tag(), tag(), tag())
+	case "select-in-else-arm":
+		return fmt.Sprintf("ch9 := make(chan int, 1)\nch9 <- 4\nif len(\"x\") == 2 {\n\tvrt.E(%d)\n} else {\n\tselect {\n\tcase v9 := <-ch9:\n\t\tif v9 == 4 {\n\t\t\tbreak\n\t\t}\n\t\tvrt.E(%d)\n\tdefault:\n\t}\n}\n«Yield»(59)", tag(), tag())
+	case "defer-in-third-arm":
+		return fmt.Sprintf("if len(\"x\") == 2 {\n\tvrt.E(%d)\n} else if len(\"x\") == 3 {\n\tvrt.E(%d)\n} else if len(\"x\") == 1 {\n\tdefer vrt.E(%d)\n} else {\n\tvrt.E(%d)\n}\n«Yield»(58)\nvrt.E(%d)", tag(), tag(), tag(), tag(), tag())
 	case "yield-switch-init":
 		return fmt.Sprintf("switch «Yield»(98); {\ndefault:\n\tvrt.E(%d)\n}", tag())
 	case "go-yield":
@@ -133,7 +142,7 @@ func rawInject(kind string, tag func() int, control bool) string {
 func Inject(r *prng.R, f *Func, tag func() int) Injection {
 	kinds := injectKinds
 	inj := Injection{Kind: kinds[r.Intn(len(kinds))], Control: r.Chance(1, 4)}
-	if inj.Control && (strings.HasPrefix(inj.Kind, "yield-if") || strings.HasPrefix(inj.Kind, "yield-for-init") || inj.Kind == "defer-and-dead-yield-in-func-range" || strings.HasPrefix(inj.Kind, "yield-switch-init-in") || strings.HasPrefix(inj.Kind, "yield-elseif") || inj.Kind == "yield-switch-init" || inj.Kind == "go-yield" || inj.Kind == "yield-as-value" || strings.HasSuffix(inj.Kind, "-noyield")) {
+	if inj.Control && (strings.HasPrefix(inj.Kind, "yield-if") || strings.HasPrefix(inj.Kind, "yield-for-init") || inj.Kind == "defer-and-dead-yield-in-func-range" || inj.Kind == "defer-in-else-if-arm" || inj.Kind == "select-in-else-arm" || inj.Kind == "defer-in-third-arm" || strings.HasPrefix(inj.Kind, "yield-switch-init-in") || strings.HasPrefix(inj.Kind, "yield-elseif") || inj.Kind == "yield-switch-init" || inj.Kind == "go-yield" || inj.Kind == "yield-as-value" || strings.HasSuffix(inj.Kind, "-noyield")) {
 		inj.Control = false // these constructs ARE a yield; there is no yield-free control of them
 	}
 	if inj.Kind == "goto-over-range" {
